@@ -74,3 +74,24 @@ def tree(spec: list) -> int:
         else:
             raise ValueError(kind)
     return total
+
+
+# ---- C06: a body that holds RUNNING until the harness opens its gate ---------------------------
+CC_GATES: dict = {}
+CC_FAIL: dict = {}
+
+
+def cc_body(k: str, v: str = "d", w: str = "e") -> str:
+    import threading
+
+    from pynenc import context
+    from pynenc.exceptions import RetryError
+
+    app = context.get_current_app()
+    inv = context.get_dist_invocation_context(app.app_id)
+    gate = CC_GATES.setdefault(inv.invocation_id, threading.Event())
+    gate.wait(30)
+    gate.clear()
+    if CC_FAIL.pop(inv.invocation_id, None) == "retry":
+        raise RetryError("again")
+    return f"{k}|{v}|{w}"
